@@ -5,7 +5,7 @@ From Coq Require Import ZArith String List Bool Lia ZifyBool.
 From PushModel Require Import Base.Sx Base.Machine Base.ListOps Base.F32 Model.Item Model.GraphT Model.State
   Model.InstrBase Model.IScalar Model.ICode Model.Registry Model.Interp
   Model.IVector Model.RegistryVec Model.IList Model.IIo Model.RegistryListIo Model.IGraph Model.RegistryGraph
-  Model.RegistryAll Spec.Footprint Proofs.Frame Proofs.FrameProofs Proofs.FrameProofs2.
+  Model.INeighbor Model.RegistryNbr Model.RandomGen Model.IRand Model.RegistryRand Model.RegistryAll Spec.Footprint Proofs.Frame Proofs.FrameProofs Proofs.FrameProofs2.
 Import ListNotations.
 Open Scope string_scope.
 
@@ -270,17 +270,29 @@ Section Unfired.
       specialize (Hf (fst e) (in_map fst _ _ Hin)). destruct (nd_lookup n1 (fst e)); [discriminate|reflexivity].
   Qed.
 
+  Lemma nbr_unfired : table_unfired tbl_nbr nd_nbr.
+  Proof. unfold table_unfired, tbl_nbr. Time utable_tac ltac:(unfired_tac unfold_nbr). Time Qed.
+  Lemma rand_unfired instrs : table_unfired (tbl_rand instrs) nd_rand.
+  Proof. unfold table_unfired, tbl_rand. Time utable_tac ltac:(unfired_tac unfold_rand). Time Qed.
+
   (* the whole registry: one [table_unfired_app] per family *)
-  Lemma all_unfired : table_unfired full_table nd_all.
+  Lemma base_unfired : table_unfired base_table nd_base.
   Proof.
-    unfold full_table, nd_all.
+    unfold base_table, nd_base.
     apply (table_unfired_app _ _ _ _ core_unfired); [|vm_compute; reflexivity].
     apply (table_unfired_app _ _ _ _ bvec_unfired); [|vm_compute; reflexivity].
     apply (table_unfired_app _ _ _ _ ivec_unfired); [|vm_compute; reflexivity].
     apply (table_unfired_app _ _ _ _ fvec_unfired); [|vm_compute; reflexivity].
     apply (table_unfired_app _ _ _ _ list_unfired); [|vm_compute; reflexivity].
     apply (table_unfired_app _ _ _ _ io_unfired); [|vm_compute; reflexivity].
-    exact graph_unfired.
+    apply (table_unfired_app _ _ _ _ graph_unfired); [|vm_compute; reflexivity].
+    exact nbr_unfired.
+  Qed.
+  Lemma all_unfired : table_unfired full_table nd_all.
+  Proof.
+    unfold full_table, nd_all.
+    apply (table_unfired_app _ _ _ _ base_unfired (rand_unfired _)).
+    rewrite tbl_rand_names. vm_compute. reflexivity.
   Qed.
 
   Theorem unfired_only_pops n f : In (n, f) full_table ->
